@@ -367,6 +367,20 @@ def r2(ctx):
         return False
 
     ok = (None if not rets else all(isinstance(r_.value, ast.Tuple) and r_.value.elts and is_the_map(r_.value.elts[0]) for r_ in rets))
+    # every listed read is a known read: the set of known reads is completed from the map of ALL tagged reads, before the
+    # map is cut down to the largest blocks (a tagged read outside the largest block is untagged, not unknown)
+    plcfg = ctx.cfg(pl)
+    ups = [c for c in ctx.prog.calls_in(pl.node) if isinstance(c.func, ast.Attribute) and c.func.attr in ("update", "__ior__") and u(c.func.value) == "known_reads" and len(c.args) == 1] + [n_ for n_ in walk_function(pl.node) if isinstance(n_, ast.AugAssign) and isinstance(n_.op, ast.BitOr) and u(n_.target) == "known_reads"]
+    src_ok = [x for x in ups if u(x.args[0] if isinstance(x, ast.Call) else x.value) in ("readname_to_haplotype", "readname_to_haplotype.keys()", "set(readname_to_haplotype)")]
+    redefs = [s_ for s_, v_ in util.assignments_to(pl.node, "readname_to_haplotype") if isinstance(v_, ast.AST) and any(isinstance(x, (ast.DictComp, ast.Subscript, ast.GeneratorExp)) for x in ast.walk(v_))]
+    if len(ups) == 1 and len(src_ok) == 1:
+        un = plcfg.node_containing(ups[0]) if isinstance(ups[0], ast.Call) else plcfg.node_of(ups[0])
+        late = [s_ for s_ in redefs if plcfg.find_path(plcfg.node_of(s_), un) is not None]
+        gk = ("discard_unknown_reads", True) in guard_atoms(plcfg, un)
+        okk = not late and gk
+        ctx.ob(pl.qual, "known-reads-completed-from-the-full-map", okk, pl.loc(ups[0]), "with --discard-unknown-reads every tagged read of the list is known, whatever --only-largest-block keeps" if okk else ("known_reads is completed after the map was cut down to the largest blocks: with both options tagged reads outside the largest block are discarded as unknown instead of going to the untagged output" if late else "known_reads is not completed under discard_unknown_reads"))
+    else:
+        ctx.ob(pl.qual, "known-reads-completed-from-the-full-map", None, pl.loc(), "cannot read how known_reads is completed with the tagged reads")
     ctx.ob(pl.qual, "returns-map-first", ok, pl.loc(rets[0]) if rets else pl.loc(), "the map is the first returned value" if ok else "process_haplotag_list_file does not return the map first")
     # untagged processing flag and add-untagged fan-out
     ph = [s for s in util.store_sites(run.node) if s.kind == "subscript" and u(s.target) == "process_haplotype[0]"]
@@ -436,6 +450,21 @@ def r3(ctx):
                 if fx is not None and fx[0] is None and so == ("histogram_data", fx[2]) and body_ok and wbody_ok:
                     ok = True
                     want = "histogram_data[k][%s] for the same k >= %d (a second loop over histogram_data[%d:])" % (length, fx[2], fx[2])
+        if ok and incs and j is not None:
+            # ... and the other way round: a count without the write it stands for (a read that is skipped because its output
+            # was not requested must not be counted)
+            lone = None
+            for n_ in incs:
+                if n_ == wn:
+                    continue
+                pre = any(s_ != wn and (s_ == n_ or cfg.find_path(s_, n_, avoid_nodes={wn, scope_head}) is not None) for s_ in cfg.succ(scope_head, "loop"))
+                post = cfg.find_path(n_, scope_head, avoid_nodes={wn})
+                if pre and post is not None:
+                    lone = [n_] + post[1:]
+            if lone is not None:
+                ctx.ob(run.qual, "histogram-counts-only-written-reads:%s" % want, False, run.loc(cfg.ast(lone[0])), "%s += 1 can happen in an iteration that does not write the read to that output (e.g. the output was not requested): the histogram counts reads that are in no file" % want, cfg.describe_path(lone))
+            else:
+                ctx.ob(run.qual, "histogram-counts-only-written-reads:%s" % want, True, run.loc(w), "every %s += 1 belongs to a write of the same iteration" % want)
         ctx.ob(run.qual, "histogram-pairs:%s" % u(w), ok, run.loc(w), "every %s is paired with %s += 1 in the same iteration" % (u(w), want) if ok else "%s is not paired with an increment of the histogram of the output it writes to (%s)" % (u(w), want or "no index paired with the writer"))
     # histogram_data has one counter per output
     hd = util.single_def(run.node, "histogram_data")
